@@ -42,6 +42,13 @@ def check_maps(c):
     B = teneva.ind_tt_to_qtt(pts, n)
     ok = isinstance(B, np.ndarray) and B.shape == E.shape and B.dtype.kind in 'iu'
     res.check(ok and np.array_equal(B, E), 'tt_to_qtt.bits', c, 'batched bits differ from the little-endian expansion')
+    if ok:
+        # the composition on the library's OWN output object (dtype and all), not on a re-typed copy
+        back2 = teneva.ind_qtt_to_tt(B, q)
+        res.check(isinstance(back2, np.ndarray) and back2.shape == pts.shape and np.array_equal(back2, pts), 'compose.direct', c,
+                  'ind_qtt_to_tt(ind_tt_to_qtt(I)) != I when the output of the first map is fed directly into the second')
+        b1 = teneva.ind_tt_to_qtt(pts[-1], n)
+        res.check(np.array_equal(teneva.ind_qtt_to_tt(b1, q), pts[-1]), 'compose.direct.single', c, 'single multi-index: direct composition fails')
     back = teneva.ind_qtt_to_tt(E, q)
     res.check(isinstance(back, np.ndarray) and back.shape == pts.shape and np.array_equal(back, pts), 'qtt_to_tt.batch', c,
               'batched inverse map differs')
